@@ -92,8 +92,15 @@ class RecSpan(Span):
         self.open_thread = threading.get_ident()
         self.close_threads = []
 
+    def _alive(self):
+        # a span whose close() failed has lost its backing object (the built-in wrapper with a dead proxy behaves like
+        # that): its accessors fail as well
+        if getattr(self, 'dead', False):
+            raise AttributeError('the backing span is gone')
+
     @property
     def name(self):
+        self._alive()
         return self._name
 
     def __len__(self):
@@ -102,10 +109,12 @@ class RecSpan(Span):
 
     @property
     def trace_id(self):
+        self._alive()
         return 't'
 
     @property
     def span_id(self):
+        self._alive()
         return 's'
 
     def add_attribute(self, key, value):
@@ -117,6 +126,7 @@ class RecSpan(Span):
     def close(self):
         self.proc.record('close', self)
         if 'close' in self.proc.faults:
+            self.dead = True
             raise self.proc.exc("span close failed")
         self.closed += 1
         self.close_threads.append(threading.get_ident())
